@@ -17,14 +17,22 @@ def budget(tier):
     return {"quick": 150, "thorough": 2500}[tier]
 
 
+ALGOS = ["T_HOO", "HCT", "VHCT"]
+
+
 def explore(tier, seed, n):
+    import algo_prop
     cases = [part_cases.gen_partition_case(seed, i, wellformed=(i % 5 != 4)) for i in range(n)]
+    per = {"quick": 6, "thorough": 80}[tier]
+    cases += algo_prop.run_cases([(seed + 300, i, a, None) for a in ALGOS for i in range(per)])
     mism, n_ops = fw.compare(cases)
     return {"cases": cases, "mism": mism, "n_ops": n_ops}
 
 
 def search(tier, seed, n):
-    return [part_cases.gen_partition_case(seed + 7919, i, wellformed=True) for i in range(4 * n)]
+    import algo_prop
+    return [part_cases.gen_partition_case(seed + 7919, i, wellformed=True) for i in range(4 * n)] + \
+        algo_prop.run_cases([(seed + 8300, i, a, None) for a in ALGOS for i in range(24)])
 
 
 def replay(path):
@@ -33,7 +41,11 @@ def replay(path):
     m = r.get("case") or (r.get("no_longer_checks") or [{}])[0].get("case")
     if not m:
         print("replay file names no concrete case:", json.dumps(r.get("no_longer_checks"), indent=1)[:2000]); return 1
-    c = part_cases.gen_partition_case(m["seed"], m["idx"], wellformed=m["wellformed"])
+    if m.get("gen") == "algo":
+        import algo_prop
+        c = algo_prop._one((m["seed"], m["idx"], m["algo"], m.get("force") or None))
+    else:
+        c = part_cases.gen_partition_case(m["seed"], m["idx"], wellformed=m["wellformed"])
     mism, _ = fw.compare([c])
     for f in c.monitor:
         print("monitor:", f)
